@@ -66,6 +66,9 @@ CORPUS = [
     ({"B": 1024, "T": 1024, "off": 1024, "size": 1024 + 8 * 1024, "seed": 9}, ["WY 3000 " + "cd" * 10]),
     ({"B": 1024, "T": 1024, "off": 2048, "size": 2048 + 8 * 1024, "seed": 3}, ["W 2 1 " + "11" * 1024, "REOPEN", "W 2 1 " + "22" * 1024]),
     ({"B": 1024, "T": 2048, "off": 0, "size": 8 * 2048, "seed": 1}, ["W 0 1 " + "ee" * 1024, "W 1 1 " + "dd" * 1024, "Z 5 2", "WB 9 " + "77" * 100]),
+    # an appending session at a filesystem offset of exactly one undo block: the reopened block map must be in device positions
+    ({"B": 1024, "T": 1024, "off": 1024, "size": 9216, "seed": 131}, ["W 0 2 " + "92" * 2048, "REOPEN", "W 1 1 " + "70" * 1024]),
+    ({"B": 1024, "T": 1024, "off": 1024, "size": 17408, "seed": 40}, ["Z 4 1", "W 0 3 " + "ab" * 3072, "REOPEN", "W 2 4 " + "cd" * 4096]),
 ]
 
 
